@@ -47,6 +47,38 @@ func c19Interleaved(c *Ctx) {
 	for step := 0; step < steps; step++ {
 		i := c.R.Intn(n)
 		op := gs[i].Next()
+		if c.R.Chance(0.06) {
+			// a filter object that is registered in another world must not be registrable here as well
+			slots := []int{}
+			for sl, st := range shared {
+				if st.registered && st.owner != nil && st.owner != ss[i] {
+					slots = append(slots, sl)
+				}
+			}
+			if len(slots) > 0 {
+				sortInts(slots)
+				st := shared[Pick(c.R, slots)]
+				if !mustPanic(func() { st.f.Register(ss[i].W) }) {
+					c.Fail(Violation{Kind: "illegal.nopanic:dup.generic.Filter.Register.otherworld", Step: step,
+						Msg: fmt.Sprintf("a generic filter registered in one world was registered in world %d as well without a panic", i)},
+						map[string]any{"world": i})
+					break
+				}
+				c.Cov.N["cross_world_double_registration_rejected"]++
+				bad := false
+				for j := range ss {
+					if d := digest(ss[j]); d != last[j] {
+						c.Fail(Violation{Kind: "illegal.changed:dup.generic.Filter.Register.otherworld", Step: step,
+							Msg: fmt.Sprintf("the rejected registration changed what world %d reports: %s", j, firstDiff(last[j], d))}, nil)
+						bad = true
+						break
+					}
+				}
+				if bad {
+					break
+				}
+			}
+		}
 		ss[i].Do(op)
 		if ss[i].Failed() {
 			v := ss[i].Viol[0]
